@@ -57,6 +57,7 @@ class Page(HTMLParser):
             self.links[i][1] += data
 
 
+THEMES = {k: v for k, v in c13.THEMES.items() if k != 'Text'}       # the HTML renderers (links are an HTML matter)
 UNITS = c13.CLASS_UNITS
 LEVELS = c13.LEVELS
 BASE = 'http://h/p/'
@@ -187,7 +188,7 @@ def analyse(files, base, cls, units, variant, src, has_toc=True):
 
 def judge(case):
     cls, units, variant = case['cls'], tuple(case['units']), case['variant']
-    rname, th = c13.THEMES[case['theme']]
+    rname, th = THEMES[case['theme']]
     src = document(cls, units, variant)
     cfg = {('files', 'split-level'): case['split'], ('general', 'theme'): th,
            ('document', 'toc-depth'): case['tocdepth'], ('document', 'toc-non-files'): case['tocnonfiles'],
@@ -283,7 +284,7 @@ def run(tier, seed, rep):
                 blocks.append(('article', units, 'full', 'HTML5min', cfg_small))
         for units in c13.shapes('book', 1) + [('chapter', 'section')]:
             if units:
-                for theme in c13.THEMES:
+                for theme in THEMES:
                     blocks.append(('book', units, 'fullenv', theme, cfg_small))
         for units in (('chapter', 'section', 'subsection'), ('section', 'subsection', 'subsubsection'),
                       ('chapter', 'subsection', 'subsubsection')):
@@ -295,12 +296,12 @@ def run(tier, seed, rep):
                 if not units:
                     continue
                 for variant in ('refs', 'full', 'fullenv'):
-                    for theme in c13.THEMES:
+                    for theme in THEMES:
                         if variant == 'fullenv' and len(units) == 3:
                             continue
                         blocks.append((cls, units, variant, theme, cfg_all if len(units) <= 2 else cfg_small))
     blocks = core.rotate(blocks, seed)
     core.merge_all(run_block, blocks, rep, chunksize=1)
     return {'exhaustive': True, 'bounds': {'units': 2 if quick else 3, 'splits': splits, 'toc': tocs, 'base_urls': bases,
-                                           'themes': list(c13.THEMES), 'blocks': len(blocks)},
+                                           'themes': list(THEMES), 'blocks': len(blocks)},
             'floors': {'evaluations': 800}}
